@@ -95,18 +95,25 @@ def run_history(case, fresh=False, workers=None):
         if case.get("ctor_shuffle") is not None:
             ckw["shuffle"] = case["ctor_shuffle"]
         bspec = case.get("batch")
-        skw = {}
+        skw0 = {}
         if bspec:
-            (ckw if case["batch_where"] == "ctor" else skw)[bspec[0]] = \
+            (ckw if case["batch_where"] == "ctor" else skw0)[bspec[0]] = \
                 bspec[1]
 
-        def sow(fn=fn):
-            crop = x.Crop(fn=fn, name=name, parent_dir=root, **ckw)
+        def sow(fn=fn, crop=None):
+            skw = skw0
+            if crop is None:
+                crop = x.Crop(fn=fn, name=name, parent_dir=root, **ckw)
+            else:
+                # the object knows its batching already: asking for it again
+                # is not part of this property
+                skw = {k: v for k, v in skw0.items()
+                       if k not in ("batchsize", "num_batches")}
             sown.append(crop)
             if case["input"] == "grid":
                 combos = {a: list(v) for a, v in case["args"]}
                 if case.get("sow_shuffle") is not None:
-                    skw["shuffle"] = case["sow_shuffle"]
+                    skw = dict(skw, shuffle=case["sow_shuffle"])
                 crop.sow_combos(combos, constants=consts or None,
                                 verbosity=0, **skw)
             else:
@@ -220,14 +227,20 @@ def run_history(case, fresh=False, workers=None):
                           _diff(got["res"], direct))
         require(not os.path.exists(crops.crop_dir(root, name)),
                 "crop-left-behind", "complete reap did not clean up")
-        if workers:
+        if workers or (not fresh and case.get("same_object_again")):
             # a second sweep under the same name and directory with ANOTHER
-            # function, grown by the same pool of worker processes
+            # function: grown by the same pool of worker processes, or sown
+            # through the SAME Crop object after ``crop.fn = other_function``
             kind2 = "str" if kind != "str" else "int"
             fn2 = crops.record(kind2, None)
             with under_test("second sweep at the same location"):
-                sow(fn2)
-                sown[-1].grow_missing(num_workers=workers)
+                if workers:
+                    sow(fn2)
+                    sown[-1].grow_missing(num_workers=workers)
+                else:
+                    sown[0].fn = fn2
+                    sow(fn2, crop=sown[0])
+                    sown[-1].grow_missing()
                 got2 = sown[-1].reap()
                 if case["input"] == "grid":
                     direct2 = x.combo_runner(
@@ -384,6 +397,7 @@ def history(draw, max_settings=40):
     }), max_size=5))
     case["plan"] = steps
     case["final_reload"] = draw(st.booleans())
+    case["same_object_again"] = draw(st.sampled_from([False, False, True]))
     case["reap_reload"] = draw(st.booleans())
     return case
 
